@@ -155,7 +155,7 @@ func openExec() (*gorm.DB, *recdrv.Recorder) {
 	return db, rec
 }
 
-func applyX(db *gorm.DB, op *Op) *gorm.DB {
+func applyX(db *gorm.DB, op *Op, group *gorm.DB) *gorm.DB {
 	nm := func(i int) string {
 		if i < len(op.Names) {
 			return op.Names[i]
@@ -163,6 +163,22 @@ func applyX(db *gorm.DB, op *Op) *gorm.DB {
 		return "c1"
 	}
 	switch op.K {
+	case "x_where_group": // a handle passed as a grouped condition: Where / Or / Not (handle)
+		switch op.N {
+		case 1:
+			return db.Or(group)
+		case 2:
+			return db.Not(group)
+		}
+		return db.Where(group)
+	case "x_select_bad": // malformed calls: the error belongs to the new chain only
+		switch op.N {
+		case 1:
+			return db.Select(42)
+		case 2:
+			return db.Select([]string{nm(0)}, "c2", 4.5)
+		}
+		return db.Select([]string{nm(0)}, 42)
 	case "x_where":
 		return db.Where(nm(0)+" >= ?", op.N)
 	case "x_or":
@@ -293,7 +309,11 @@ func runExec(in Input) Obs {
 		parent := handles[p]
 		switch st.K {
 		case "derive":
-			handles = append(handles, applyX(parent, st.Op))
+			var grp *gorm.DB
+			if st.Op.K == "x_where_group" && st.Op.H >= 0 && st.Op.H < len(handles) {
+				grp = handles[st.Op.H]
+			}
+			handles = append(handles, applyX(parent, st.Op, grp))
 			paths = append(paths, append(append([]Step(nil), paths[p]...), st))
 		case "sess":
 			handles = append(handles, applySess(parent, st.Sess))
@@ -311,7 +331,23 @@ func runExec(in Input) Obs {
 			for _, ps := range paths[p] {
 				switch ps.K {
 				case "derive":
-					cur = applyX(cur, ps.Op)
+					var grp *gorm.DB
+					if ps.Op.K == "x_where_group" && ps.Op.H >= 0 && ps.Op.H < len(paths) {
+						// the handle used as the group is rebuilt alone as well
+						g, _ := openExec()
+						if sq, err := g.DB(); err == nil {
+							defer sq.Close()
+						}
+						for _, gs := range paths[ps.Op.H] {
+							if gs.K == "derive" && gs.Op.K != "x_where_group" {
+								g = applyX(g, gs.Op, nil)
+							} else if gs.K == "sess" {
+								g = applySess(g, gs.Sess)
+							}
+						}
+						grp = g
+					}
+					cur = applyX(cur, ps.Op, grp)
 				case "sess":
 					cur = applySess(cur, ps.Sess)
 				}
@@ -1165,7 +1201,7 @@ func genHistory(r *lib.Rng, nsteps int, edge bool) Input {
 // genPattern: the interference pattern instantiated for a random appendable clause.
 func genPattern(r *lib.Rng) Input {
 	g := &gen{r: r, t: newTracker(), next: 9, edge: r.Chance(1, 3)}
-	kind := lib.Pick(r, []string{"where", "or", "order", "orderby", "group", "having", "joins", "scopes", "select_slice", "from", "not", "returning", "returning"})
+	kind := lib.Pick(r, []string{"where", "or", "order", "orderby", "group", "having", "joins", "scopes", "select_slice", "from", "not", "returning", "returning", "limit", "limit", "offset"})
 	mk1 := func() *Op {
 		switch kind {
 		case "where":
@@ -1201,6 +1237,10 @@ func genPattern(r *lib.Rng) Input {
 		case "returning":
 			n := r.Range(1, 2)
 			return &Op{K: "returning", Xs: g.ids(n), Cap: g.spare(n)}
+		case "limit": // positive values override, negative ones cancel: scalar state held through a *int
+			return &Op{K: "limit", N: int64(lib.Pick(r, []int{-1, -1, 0, 1, 2, 3, 7}))}
+		case "offset":
+			return &Op{K: "offset", N: int64(lib.Pick(r, []int{-1, -1, 0, 1, 2, 5}))}
 		}
 		n := r.Range(1, 2)
 		return &Op{K: "from", Xs: g.ids(n), Cap: g.spare(n)}
@@ -1274,6 +1314,9 @@ func genExec(r *lib.Rng) Input {
 		case 14:
 			return &Op{K: "x_scopes", N: int64(r.Range(4, 12))}
 		}
+		if r.Chance(1, 5) {
+			return &Op{K: "x_select_bad", Names: []string{col()}, N: int64(r.Intn(3))}
+		}
 		if r.Bool() {
 			return &Op{K: "x_table", Names: []string{lib.Pick(r, []string{"ts", "us"})}}
 		}
@@ -1340,15 +1383,25 @@ func genExec(r *lib.Rng) Input {
 	hs := []int{h}
 	for k := r.Range(4, 9); k > 0; k-- {
 		from := lib.Pick(r, hs)
-		switch r.Intn(6) {
+		switch r.Intn(8) {
+		case 7: // a malformed call on a chain that is then abandoned
+			push(Step{K: "derive", P: from, Op: &Op{K: "x_select_bad", Names: []string{col()}, N: int64(r.Intn(3))}})
+		case 6: // the handle as a grouped condition of a chain started elsewhere; sometimes abandoned
+			start := lib.Pick(r, append([]int{0, 0}, hs...))
+			c := push(Step{K: "derive", P: start, Op: &Op{K: "x_where_group", H: from, N: int64(r.Intn(3))}})
+			if r.Chance(2, 3) {
+				push(Step{K: "finish", P: c, Fin: xfin()})
+			}
 		case 0, 1, 2: // a finisher straight from the handle
 			push(Step{K: "finish", P: from, Fin: xfin()})
-		case 3, 4: // a chain, then a finisher
+		case 3, 4: // a chain, then a finisher (or the chain is abandoned)
 			c := push(Step{K: "derive", P: from, Op: xop()})
 			if r.Bool() {
 				c = push(Step{K: "derive", P: c, Op: xop()})
 			}
-			push(Step{K: "finish", P: c, Fin: xfin()})
+			if r.Chance(5, 6) {
+				push(Step{K: "finish", P: c, Fin: xfin()})
+			}
 		default: // a further handle
 			c := push(Step{K: "derive", P: from, Op: xop()})
 			hs = append(hs, push(Step{K: "sess", P: c, Sess: lib.Pick(r, []string{"plain", "ctx", "debug"})}))
